@@ -17,110 +17,120 @@ EXTENDS Integers, Sequences, FiniteSets, TLC, Json, IOUtils
 
 CONSTANTS Cfgs       \* set of [E, NB, NV, NT] records (NV = 0: no validation loader; NT: batches of the test loader)
 
-VARIABLES cfg, phase, ep, bi, vb, mtrain, gmode, ngdepth, steps, fwd, zeroed, bwdone, pver, sver, hlen
-vars == <<cfg, phase, ep, bi, vb, mtrain, gmode, ngdepth, steps, fwd, zeroed, bwdone, pver, sver, hlen>>
+VARIABLES cfg, phase, ep, bi, vb, mtrain, gmode, ngdepth, steps, fwd, zeroed, bwdone, pver, sver, hlen,
+          amb,      \* the gradient mode of the caller's environment (the caller may run test() inside its own no_grad block)
+          saved     \* the mode found when the loop's no_grad block was entered
+vars == <<cfg, phase, ep, bi, vb, mtrain, gmode, ngdepth, steps, fwd, zeroed, bwdone, pver, sver, hlen, amb, saved>>
 
 Init ==
   /\ cfg \in Cfgs
   /\ phase = "idle" /\ ep = 0 /\ bi = 0 /\ vb = 0
   /\ mtrain \in BOOLEAN          \* whatever mode the model was left in
-  /\ gmode = TRUE /\ ngdepth = 0
+  /\ gmode = TRUE /\ ngdepth = 0 /\ amb = TRUE /\ saved = TRUE
   /\ steps = 0 /\ fwd = FALSE /\ zeroed = FALSE /\ bwdone = FALSE
   /\ pver = 0 /\ sver = 0 /\ hlen = 0
 
-\* fit() starts an epoch: phase idle/epoch-boundary -> train
+\* the caller enters / leaves a no_grad block of its own between two calls of the Trainer (e.g. to run test())
+AmbientToggle ==
+  /\ phase \in {"idle", "finished", "tested"} /\ ngdepth = 0
+  /\ amb' = ~amb /\ gmode' = ~gmode
+  /\ UNCHANGED <<cfg, phase, ep, bi, vb, mtrain, ngdepth, steps, fwd, zeroed, bwdone, pver, sver, hlen, saved>>
+
+\* fit() starts an epoch: phase idle/epoch-boundary -> train (training needs gradient tracking: fit() inside a
+\* caller's no_grad block is outside the specification)
 EpochBegin ==
-  /\ phase \in {"idle", "between"} /\ ep < cfg.E
+  /\ phase \in {"idle", "between"} /\ ep < cfg.E /\ gmode
   /\ phase' = "train" /\ bi' = 0 /\ vb' = 0
-  /\ UNCHANGED <<cfg, ep, mtrain, gmode, ngdepth, steps, fwd, zeroed, bwdone, pver, sver, hlen>>
+  /\ UNCHANGED <<cfg, ep, mtrain, gmode, ngdepth, steps, fwd, zeroed, bwdone, pver, sver, hlen, amb, saved>>
 
 ModelTrain ==       \* model.train(): allowed whenever the loop is in its training part and no batch is half-way
   /\ phase = "train" /\ ~bwdone
   /\ mtrain' = TRUE
-  /\ UNCHANGED <<cfg, phase, ep, bi, vb, gmode, ngdepth, steps, fwd, zeroed, bwdone, pver, sver, hlen>>
+  /\ UNCHANGED <<cfg, phase, ep, bi, vb, gmode, ngdepth, steps, fwd, zeroed, bwdone, pver, sver, hlen, amb, saved>>
 
 \* a user callback (on_train_epoch) runs at the start of the epoch and may leave the model in any mode,
 \* e.g. after evaluating it; the loop must re-assert training mode before the first batch
 CallbackEval ==
   /\ phase = "train" /\ bi = 0 /\ ~fwd /\ ~zeroed /\ ~bwdone
   /\ mtrain' = FALSE
-  /\ UNCHANGED <<cfg, phase, ep, bi, vb, gmode, ngdepth, steps, fwd, zeroed, bwdone, pver, sver, hlen>>
+  /\ UNCHANGED <<cfg, phase, ep, bi, vb, gmode, ngdepth, steps, fwd, zeroed, bwdone, pver, sver, hlen, amb, saved>>
 
 Forward(statsMove) ==
   /\ phase = "train" /\ bi < cfg.NB /\ ~fwd /\ ~bwdone
   /\ mtrain /\ gmode                       \* computed with the model in training mode, gradients tracked
   /\ fwd' = TRUE
   /\ sver' = IF statsMove THEN sver + 1 ELSE sver
-  /\ UNCHANGED <<cfg, phase, ep, bi, vb, mtrain, gmode, ngdepth, steps, zeroed, bwdone, pver, hlen>>
+  /\ UNCHANGED <<cfg, phase, ep, bi, vb, mtrain, gmode, ngdepth, steps, zeroed, bwdone, pver, hlen, amb, saved>>
 
 ZeroGrad ==
   /\ phase = "train" /\ bi < cfg.NB /\ ~zeroed /\ ~bwdone
   /\ zeroed' = TRUE
-  /\ UNCHANGED <<cfg, phase, ep, bi, vb, mtrain, gmode, ngdepth, steps, fwd, bwdone, pver, sver, hlen>>
+  /\ UNCHANGED <<cfg, phase, ep, bi, vb, mtrain, gmode, ngdepth, steps, fwd, bwdone, pver, sver, hlen, amb, saved>>
 
 Backward ==
   /\ phase = "train" /\ fwd /\ zeroed /\ ~bwdone /\ gmode
   /\ bwdone' = TRUE
-  /\ UNCHANGED <<cfg, phase, ep, bi, vb, mtrain, gmode, ngdepth, steps, fwd, zeroed, pver, sver, hlen>>
+  /\ UNCHANGED <<cfg, phase, ep, bi, vb, mtrain, gmode, ngdepth, steps, fwd, zeroed, pver, sver, hlen, amb, saved>>
 
 Step(paramsMove) ==
   /\ phase = "train" /\ bwdone /\ mtrain /\ gmode
   /\ steps' = steps + 1 /\ bi' = bi + 1
   /\ pver' = IF paramsMove THEN pver + 1 ELSE pver
   /\ fwd' = FALSE /\ zeroed' = FALSE /\ bwdone' = FALSE
-  /\ UNCHANGED <<cfg, phase, ep, vb, mtrain, gmode, ngdepth, sver, hlen>>
+  /\ UNCHANGED <<cfg, phase, ep, vb, mtrain, gmode, ngdepth, sver, hlen, amb, saved>>
 
 \* all batches of the epoch done: either validate or close the epoch
 ValBegin ==
   /\ phase = "train" /\ bi = cfg.NB /\ cfg.NV > 0 /\ ~fwd /\ ~zeroed
   /\ phase' = "val"
-  /\ UNCHANGED <<cfg, ep, bi, vb, mtrain, gmode, ngdepth, steps, fwd, zeroed, bwdone, pver, sver, hlen>>
+  /\ UNCHANGED <<cfg, ep, bi, vb, mtrain, gmode, ngdepth, steps, fwd, zeroed, bwdone, pver, sver, hlen, amb, saved>>
 
 ModelEval ==
   /\ phase \in {"val", "test"}
   /\ mtrain' = FALSE
-  /\ UNCHANGED <<cfg, phase, ep, bi, vb, gmode, ngdepth, steps, fwd, zeroed, bwdone, pver, sver, hlen>>
+  /\ UNCHANGED <<cfg, phase, ep, bi, vb, gmode, ngdepth, steps, fwd, zeroed, bwdone, pver, sver, hlen, amb, saved>>
 
 NoGradEnter ==
   /\ phase \in {"val", "test"} /\ ngdepth = 0 /\ vb = 0        \* entered once, before the first forward
-  /\ ngdepth' = 1 /\ gmode' = FALSE
-  /\ UNCHANGED <<cfg, phase, ep, bi, vb, mtrain, steps, fwd, zeroed, bwdone, pver, sver, hlen>>
+  /\ ngdepth' = 1 /\ gmode' = FALSE /\ saved' = gmode
+  /\ UNCHANGED <<cfg, phase, ep, bi, vb, mtrain, steps, fwd, zeroed, bwdone, pver, sver, hlen, amb>>
 
 ValForward ==
   /\ phase \in {"val", "test"} /\ (phase = "val" => vb < cfg.NV) /\ (phase = "test" => vb < cfg.NT)
   /\ ~mtrain /\ ~gmode                      \* eval mode, gradient tracking disabled
   /\ vb' = vb + 1
-  /\ UNCHANGED <<cfg, phase, ep, bi, mtrain, gmode, ngdepth, steps, fwd, zeroed, bwdone, pver, sver, hlen>>
+  /\ UNCHANGED <<cfg, phase, ep, bi, mtrain, gmode, ngdepth, steps, fwd, zeroed, bwdone, pver, sver, hlen, amb, saved>>
 
 NoGradExit ==
   /\ phase \in {"val", "test"} /\ ngdepth = 1 /\ (phase = "val" => vb = cfg.NV) /\ (phase = "test" => vb = cfg.NT)
-  /\ ngdepth' = 0 /\ gmode' = TRUE          \* the mode found on entry
-  /\ UNCHANGED <<cfg, phase, ep, bi, vb, mtrain, steps, fwd, zeroed, bwdone, pver, sver, hlen>>
+  /\ ngdepth' = 0 /\ gmode' = saved         \* the mode found on entry - not the mode at any other time
+  /\ UNCHANGED <<cfg, phase, ep, bi, vb, mtrain, steps, fwd, zeroed, bwdone, pver, sver, hlen, amb, saved>>
 
 EpochEnd ==
   /\ \/ phase = "train" /\ bi = cfg.NB /\ cfg.NV = 0 /\ ~fwd /\ ~zeroed
      \/ phase = "val" /\ vb = cfg.NV /\ ngdepth = 0
   /\ ep' = ep + 1 /\ hlen' = hlen + 1       \* exactly one history entry per key and epoch
   /\ phase' = IF ep + 1 = cfg.E THEN "done" ELSE "between"
-  /\ UNCHANGED <<cfg, bi, vb, mtrain, gmode, ngdepth, steps, fwd, zeroed, bwdone, pver, sver>>
+  /\ UNCHANGED <<cfg, bi, vb, mtrain, gmode, ngdepth, steps, fwd, zeroed, bwdone, pver, sver, amb, saved>>
 
 \* fit() returns: every epoch has been run
 FitEnd ==
   /\ phase = "done"
   /\ phase' = "finished"
-  /\ UNCHANGED <<cfg, ep, bi, vb, mtrain, gmode, ngdepth, steps, fwd, zeroed, bwdone, pver, sver, hlen>>
+  /\ UNCHANGED <<cfg, ep, bi, vb, mtrain, gmode, ngdepth, steps, fwd, zeroed, bwdone, pver, sver, hlen, amb, saved>>
 
 \* Trainer.test(): model.eval(), no_grad, forwards, exit
 TestBegin ==
   /\ phase \in {"idle", "finished"}
   /\ phase' = "test" /\ vb' = 0
-  /\ UNCHANGED <<cfg, ep, bi, mtrain, gmode, ngdepth, steps, fwd, zeroed, bwdone, pver, sver, hlen>>
+  /\ UNCHANGED <<cfg, ep, bi, mtrain, gmode, ngdepth, steps, fwd, zeroed, bwdone, pver, sver, hlen, amb, saved>>
 TestEnd ==
   /\ phase = "test" /\ ngdepth = 0 /\ ~mtrain /\ vb = cfg.NT
   /\ phase' = "tested"
-  /\ UNCHANGED <<cfg, ep, bi, vb, mtrain, gmode, ngdepth, steps, fwd, zeroed, bwdone, pver, sver, hlen>>
+  /\ UNCHANGED <<cfg, ep, bi, vb, mtrain, gmode, ngdepth, steps, fwd, zeroed, bwdone, pver, sver, hlen, amb, saved>>
 
 Next ==
+  \/ AmbientToggle
   \/ EpochBegin \/ ModelTrain \/ CallbackEval \/ ZeroGrad \/ Backward \/ ValBegin \/ ModelEval \/ NoGradEnter \/ ValForward \/ NoGradExit
   \/ EpochEnd \/ FitEnd \/ TestBegin \/ TestEnd
   \/ \E b \in BOOLEAN : Forward(b) \/ Step(b)
@@ -148,7 +158,7 @@ EvalFrozen == [][(phase \in {"val", "test"}) => (pver' = pver /\ sver' = sver)]_
 ParamsOnlyInStep == [][pver' # pver => steps' = steps + 1]_vars
 StatsOnlyInTrainFwd == [][sver' # sver => (phase = "train" /\ mtrain /\ fwd' /\ ~fwd)]_vars
 \* validation / test leave the global gradient mode as they found it
-GradModeRestored == (phase \in {"idle", "train", "between", "done", "finished", "tested"}) => (gmode /\ ngdepth = 0)
+GradModeRestored == (phase \in {"idle", "train", "between", "done", "finished", "tested"}) => (gmode = amb /\ ngdepth = 0)
 \* fit terminates
 Terminates == <>(phase = "done")
 
